@@ -5,4 +5,4 @@ NOTES = ("Every check is `./check <id>`: it rebuilds the harness from /repo's wo
 NOT_YET = {}
 
 # properties whose check has been reviewed by the lead and passes on the current tree
-READY = ["C01", "C02", "C03", "C04", "C05", "C06", "C07", "C08", "C09", "C11", "C12", "C13", "C14", "C15", "C16", "C17", "C18", "C19", "C20"]
+READY = ["C01", "C02", "C03", "C04", "C05", "C06", "C07", "C08", "C09", "C10", "C11", "C12", "C13", "C14", "C15", "C16", "C17", "C18", "C19", "C20"]
